@@ -24,7 +24,7 @@ func verifCanary(label string, cond bool) {}
 //@ pred connInv(c *Conn) := c != nil && c.ack != nil && c.ack.ReceiveBufSize >= 8192 && c.ack.SendBufSize >= 8192
 
 //@ func (*Conn).Receive
-//@   props C05 C20 C13
+//@   props C05 C20 C13 C06
 //@   bytes
 //@   requires connInv(c)
 //@   let pos = io.streamPos(c)
@@ -35,6 +35,7 @@ func verifCanary(label string, cond bool) {}
 //@           at(result0, i) == io.streamAt(ref(c), pos + (i - off(result0)))
 //@   ensures [C05:advance] err == nil ==> io.streamPos(c) == pos + len(result0)
 //@   ensures [C13:capacity] err == nil ==> cap(result0) >= 8192
+//@   witness ensures [C06:max-frame-accepted] err == nil && len(result0) == int(c.ack.ReceiveBufSize)
 //@   ensures [C05:error-nothing] err != nil ==> len(result0) == 0
 //@   ensures [C20:fresh] err == nil ==> fresh(result0)
 //@   canary ensures [C05:canary-advance-8] err == nil ==> io.streamPos(c) == pos + 8
